@@ -36,10 +36,10 @@ var c14LYCs = func() []uint8 {
 
 func (c14) Describe() engine.Info {
 	return engine.Info{
-		Rule: "scenario = one STAT source (HBlank / VBlank / OAM / LYC, or none) x LYC (every value 0..153 and 154, 200, 255, enumerated by index for the LYC source) x 3..4 frames, with 0..4 LCD off/on switches at random or mode-boundary cycles. " +
+		Rule: "scenario = one STAT source (HBlank / VBlank / OAM / LYC, or none) x LYC (every value 0..153 and 154, 200, 255, enumerated by index for the LYC source) x 3..4 frames, with 0..4 LCD off/on switches at random or mode-boundary cycles and STAT select writes (any sources) while the LCD is off. " +
 			"Oracle: after every cycle the set of requests seen (IF bits 0-1, cleared by the observer) equals the set predicted by the reference counter: VBlank once at the start of line 144; HBlank source at each mode-0 entry; VBlank source at line 144; OAM source at the start of lines 0-143 (line 144 and the switch-on instant: either); LYC source at the start of the line LY becomes LYC (switch-on instant with LYC=0: either); nothing while off. Signature = (source, request kind, line class, after-switch-on?).",
 		Assumptions:    []string{"only single-source configurations are judged (STAT line blocking between sources is outside the statement)", "LYC is constant during a run"},
-		RequiredProbes: []string{"vblank_request", "stat_hblank", "stat_vblank", "stat_oam", "stat_lyc", "lcd_switched", "oam_request_line0_after_vblank"},
+		RequiredProbes: []string{"stat_written_while_off", "vblank_request", "stat_hblank", "stat_vblank", "stat_oam", "stat_lyc", "lcd_switched", "oam_request_line0_after_vblank"},
 		RealComponents: realComponents, StubComponents: stubComponents,
 		Sweeps: []string{"LYC source x every LYC value (index-enumerated)"},
 	}
@@ -62,6 +62,38 @@ func (c14) Generate(r *engine.Rand, index int, tier string) *engine.Scenario {
 	if r.Chance(1, 2) {
 		genPPUEvents(r, sc, total, r.Range(1, 4), 0, r.Bool())
 	}
+	// STAT select writes while the LCD is off (any sources; the configured one is restored before
+	// the LCD is switched on again): nothing may be requested while the LCD is off
+	var extra []engine.Event
+	off, offAt := false, uint64(0)
+	span := func(from, to uint64) {
+		if to <= from+3 {
+			return
+		}
+		at := from
+		for i, n := 0, r.Range(1, 3); i < n && at+2 < to; i++ {
+			at += 1 + uint64(r.Intn(int(to-at-2)))
+			extra = append(extra, engine.Event{At: at, K: "bus_w", A: 0xff41, V: engine.Pick(r, []uint8{0x08, 0x10, 0x20, 0x40, 0x78, 0x00, 0x48})})
+		}
+		extra = append(extra, engine.Event{At: to - 1, K: "bus_w", A: 0xff41, V: uint8(sc.P("stat", 0))})
+	}
+	for _, e := range sc.Events {
+		if e.A != 0xff40 {
+			continue
+		}
+		now := e.V&0x80 == 0
+		if now && !off {
+			off, offAt = true, e.At
+		} else if !now && off {
+			off = false
+			span(offAt, e.At)
+		}
+	}
+	if off {
+		span(offAt, total)
+	}
+	sc.Events = append(sc.Events, extra...)
+	sortEvents(sc.Events)
 	sc.Cycles = total
 	return sc
 }
@@ -174,6 +206,12 @@ func (c14) Execute(sc *engine.Scenario) *engine.Result {
 					res.Probe("lcd_switched")
 				}
 				res.Fault("lcdc_write")
+			}
+			if ev.A == 0xff41 {
+				if ref.On {
+					continue // only while the LCD is off (a minimised schedule may have lost the switch-off)
+				}
+				res.Probe("stat_written_while_off")
 			}
 			m.Write(ev.A, ev.V)
 		}
